@@ -276,9 +276,6 @@ func (c *Config) expandEnvVars() {
 		c.APK.Signature.KeyPassphrase = apkPassphrase
 	}
 
-	// RPM specific
-	c.RPM.Packager = os.Expand(c.RPM.Packager, c.envMappingFunc)
-
 	// Deb specific
 	for k, v := range c.Deb.Fields {
 		c.Deb.Fields[k] = os.Expand(v, c.envMappingFunc)
